@@ -99,6 +99,40 @@ def may_raise(node):
     return False
 
 
+class _SomeText(str):
+    """A string that is not empty, whatever it says (a message built from
+    a template with literal text)."""
+
+
+SOME_TEXT = _SomeText('\0some text')
+
+
+def _some_text(v):
+    """Is v a string built around literal text (so never empty)?"""
+    import re as _re
+
+    def literal(sv):
+        return isinstance(sv, str) and bool(
+            _re.sub(r'%(\([^)]*\))?[-#0 +]*\d*(\.\d+)?[sdrifxXo]|%%', '',
+                    sv).strip() or _re.sub(r'%%', '%', sv).count('%%'))
+    if isinstance(v, ast.BinOp) and isinstance(v.op, ast.Mod) and \
+            isinstance(v.left, ast.Constant) and literal(v.left.value):
+        return True
+    if isinstance(v, ast.JoinedStr):
+        return any(isinstance(p, ast.Constant) and isinstance(p.value, str)
+                   and p.value for p in v.values)
+    if isinstance(v, ast.BinOp) and isinstance(v.op, ast.Add):
+        return any(isinstance(x, ast.Constant) and isinstance(x.value, str)
+                   and bool(x.value) or _some_text(x)
+                   for x in (v.left, v.right))
+    if isinstance(v, ast.Call) and isinstance(v.func, ast.Attribute) and \
+            v.func.attr == 'format' and \
+            isinstance(v.func.value, ast.Constant) and \
+            isinstance(v.func.value.value, str):
+        return bool(_re.sub(r'\{[^{}]*\}', '', v.func.value.value).strip())
+    return False
+
+
 class CFG:
     def __init__(self, func, prog=None, noreturn=frozenset()):
         self.func = func
@@ -505,7 +539,8 @@ class CFG:
                 for t in n.targets:
                     for el, v in _pairs(t, n.value):
                         if isinstance(el, ast.Name) and \
-                                isinstance(v, ast.Constant):
+                                (isinstance(v, ast.Constant) or
+                                 _some_text(v)):
                             consts.add(el.id)
         params = set()
         a = root.args
@@ -525,6 +560,8 @@ class CFG:
             flags whose value is known on this path; else None."""
             if isinstance(v, ast.Constant):
                 return ('c', v.value)
+            if _some_text(v):
+                return ('c', SOME_TEXT)
             if env is None:
                 return None
             if isinstance(v, ast.Name) and v.id in env:
@@ -595,6 +632,9 @@ class CFG:
             val = env[atom.left.id][1]
             lit = atom.comparators[0].value
             op = atom.ops[0]
+            if val is SOME_TEXT and not (lit is None or
+                                         isinstance(lit, bool)):
+                return None       # some text: equal to this one or not
             if isinstance(op, ast.Is):
                 return (val is lit) if lit is None or isinstance(
                     lit, bool) else None
